@@ -115,6 +115,25 @@ CLAIMED = {
         technique='Lean 4 refinement proof (two persister models refine a map specification, induction over histories) + '
                   'differential correspondence on generated histories against both real persisters',
         design='6/C14'),
+    'C18': dict(
+        text='Lean theorems over the process-stack model (tasks with context-local stacks, _process_scope, _run_task, call_soon, '
+             'launch, re-entrant execute(), kill of a waiting process), for every scenario and every order of ticks of any number of '
+             'tasks, children and nested executions: C18_current_in_scope (inside step functions, continuations, after every await, '
+             'in scheduled callbacks and output hooks, current() is the owning process), C18_scope_restores_self / _others / '
+             'C18_scope_restores (a scope exit restores the task\'s stack; code of one task never changes what another task '
+             'observes), C18_scope_assertion_never_fails. The hook clause of the property is NOT proved: it is false of the code '
+             '(lifecycle hooks fired by transition_to, the constructor and close() run outside _process_scope) and is a recorded '
+             'finding F14 (C18_witness_hook_outside_scope, C18_full_false; the check prints KNOWN-FINDING); the proved statement is '
+             'C18_current_in_scope_partial, whose only extra hypothesis is "not a lifecycle hook". The model is compared with real '
+             'generated Process classes after every event-loop callback (outermost and nested loops), over all interleavings of small '
+             'scenarios and random schedules of random ones.',
+        note='Modelled, not verified: contextvars context copy at task creation, asyncio scheduling, nest_asyncio re-entrancy '
+             '(assumed contracts stated in the model, exercised through the real libraries); Process.step/transition_to hook order '
+             '(hand-written mirror, differential check on every sample of Process.current() and PROCESS_STACK). pause/play and '
+             'faults inside callbacks are outside this model (C03-C05).',
+        technique='Lean 4 invariant proof over an interleaving task/stack machine + differential correspondence on a deterministic '
+                  're-entrant event loop',
+        design='6/C18'),
 }
 
 PM_NOTE = ('Modelled, not verified: Process.step / step_until_terminated / pause / play / kill / resume / fail / call_soon / '
